@@ -257,6 +257,52 @@ def MatZnx.writeTo (p : Profile) (m : MatZnx) : Outcome Bytes := do
   if m.data.length < logicalLen then .err "invalid"
   else .ok (hdr ++ leBytes 8 logicalLen ++ m.data.take logicalLen)
 
+/-! ### capacity and acceptance
+
+The **capacity** of a receiver is the length of its byte buffer — not its current logical shape
+(`n·cols·size·8` …), which every successful read changes.  `vecAccept` / `scalarAccept` / `matAccept`
+decide acceptance of a stream from the stream and the capacity alone; `Props/C18` proves that the readers
+accept exactly these streams, hence that acceptance never depends on what was read before. -/
+
+def VecZnx.capacity (v : VecZnx) : Nat := v.data.length
+def ScalarZnx.capacity (v : ScalarZnx) : Nat := v.data.length
+def MatZnx.capacity (v : MatZnx) : Nat := v.data.length
+
+def hdrWord (bs : Bytes) (i : Nat) : Nat := leVal ((bs.drop (8 * i)).take 8)
+
+def vecAccept (cap : Nat) (bs : Bytes) : Bool :=
+  decide (40 ≤ bs.length) &&
+  (cm3x8 (hdrWord bs 0) (hdrWord bs 1) (hdrWord bs 2) == some (hdrWord bs 4)) &&
+  decide (hdrWord bs 4 ≤ cap) && decide (hdrWord bs 2 ≤ hdrWord bs 3) &&
+  (cm3x8 (hdrWord bs 0) (hdrWord bs 1) (hdrWord bs 3)).any (fun c => decide (c ≤ cap)) &&
+  decide (hdrWord bs 4 ≤ (bs.drop 40).length)
+
+def scalarAccept (cap : Nat) (bs : Bytes) : Bool :=
+  decide (24 ≤ bs.length) &&
+  (((checkedMul (hdrWord bs 0) (hdrWord bs 1)).bind (fun x => checkedMul x 8)) == some (hdrWord bs 2)) &&
+  decide (hdrWord bs 2 ≤ cap) && decide (hdrWord bs 2 ≤ (bs.drop 24).length)
+
+def matAccept (cap : Nat) (bs : Bytes) : Bool :=
+  decide (48 ≤ bs.length) &&
+  (cmMat (hdrWord bs 2) (hdrWord bs 3) (hdrWord bs 0) (hdrWord bs 4) (hdrWord bs 1) == some (hdrWord bs 5)) &&
+  decide (hdrWord bs 5 ≤ cap) && decide (hdrWord bs 5 ≤ (bs.drop 48).length)
+
+/-- successive reads into one receiver (the receiver lives on after an `Err`) -/
+def VecZnx.readSeq (r : VecZnx) : List Bytes → VecZnx
+  | [] => r
+  | bs :: rest => VecZnx.readSeq (VecZnx.readFrom r bs).state rest
+def ScalarZnx.readSeq (r : ScalarZnx) : List Bytes → ScalarZnx
+  | [] => r
+  | bs :: rest => ScalarZnx.readSeq (ScalarZnx.readFrom r bs).state rest
+def MatZnx.readSeq (r : MatZnx) : List Bytes → MatZnx
+  | [] => r
+  | bs :: rest => MatZnx.readSeq (MatZnx.readFrom r bs).state rest
+
+/-- successive reads of a wrapper reader into one flat state -/
+def readSeqSt (rd : Rd St Unit) (s : St) : List Bytes → St
+  | [] => s
+  | bs :: rest => readSeqSt rd (rd s bs).state rest
+
 /-! ### invariants (the post-state clause of C18, and C17's `Inv`) -/
 
 def VecZnx.Inv (v : VecZnx) : Prop := v.size ≤ v.maxSize ∧ v.n * v.cols * v.maxSize * 8 ≤ v.data.length
